@@ -89,6 +89,7 @@ def names_upto(segs, depth):
 
 
 NONUTF_CREATED = []       # filled by make_tree
+SPECIAL_CREATED = []      # filled by make_tree
 TREETOP = "/tmp/c17tree"
 LINK = "/tmp/c17link"     # a symbolic link OUTSIDE the base that points at the base: another spelling of the base directory
 ABSDIR = "/tmp/c17abs"   # an absolute canary location without any dot segment
@@ -234,6 +235,33 @@ def make_tree():
                     open(q, "w").write(body("CANARY9%d" % len(NONUTF_CREATED)))
             NONUTF_CREATED.append(real)
         except (OSError, UnicodeError, ValueError):
+            continue
+    # base directories whose path holds characters that mean something to shells, PATH-like lists, URLs or globs; full
+    # copies of the base.  For list separators (':' ';') a decoy with canaries sits at every split point: the part before
+    # the separator below the root, the parts after it below the working directory (= root for these configurations).
+    del SPECIAL_CREATED[:]
+    for rel in ("site:v2/templates", ":lead/tpl", "a:b:c/tpl", "x;y/tpl", "my templates/tpl dir", "100%/tpl%41", "~/tpl", "$HOME/tpl", "*?[x]/tpl", "-rf/tpl", "a=b&c/tpl#frag",
+                "tab\tnl\n/tpl", "quote'\"/tpl", "{a,b}/tpl", "tpl:"):
+        real = os.path.join(root, rel)
+        try:
+            os.makedirs(os.path.dirname(real), exist_ok=True)
+            shutil.copytree(base, real, symlinks=True)
+            for sep in (":", ";"):
+                parts = rel.split(sep)
+                for i, part in enumerate(parts):
+                    if len(parts) < 2:
+                        continue
+                    decoy = os.path.join(root, part) if part else root
+                    if os.path.realpath(decoy) == os.path.realpath(real) or decoy == root:
+                        continue
+                    for r in ("a", "dir/a", "canary", "sub/a", "d/a", "a.", "a..b"):
+                        q = os.path.join(decoy, r)
+                        if os.path.realpath(q).startswith(os.path.realpath(real) + os.sep) or os.path.exists(q):
+                            continue
+                        os.makedirs(os.path.dirname(q), exist_ok=True)
+                        open(q, "w").write(body("CANARY8%d" % len(SPECIAL_CREATED)))
+            SPECIAL_CREATED.append(real)
+        except (OSError, ValueError):
             continue
     return top, base, absdir, tags, outside
 
@@ -460,7 +488,9 @@ def run_all(chk, mj, hooks, proofs_ok, top, base, absdir, tags, outside):
                ("relative .", ".", base), ("empty string", "", base), ("relative ..", "..", os.path.join(base, "dir")), ("relative ../..", "../..", os.path.join(base, "dir", "sub")),
                ("absolute with ..", os.path.join(root, "work", "..", "base"), None), ("absolute with trailing ..", os.path.join(base, "dir", ".."), None)] + \
               [("base path that is not UTF-8: %s" % ascii(os.path.relpath(p, root)), p, None) for p in NONUTF_CREATED] + \
-              [("relative base path that is not UTF-8: %s" % ascii(os.path.relpath(p, root)), os.path.relpath(p, root), root) for p in NONUTF_CREATED[:2]]
+              [("relative base path that is not UTF-8: %s" % ascii(os.path.relpath(p, root)), os.path.relpath(p, root), root) for p in NONUTF_CREATED[:2]] + \
+              [("base path with special characters: %s" % ascii(os.path.relpath(p, root)), p, root) for p in SPECIAL_CREATED] + \
+              [("relative base path with special characters: %s" % ascii(os.path.relpath(p, root)), os.path.relpath(p, root), root) for p in SPECIAL_CREATED[:4]]
     ntarget = sum(1 for c in e2e if c[1] == 0)
     for ci, (label, cfg_base, cwd) in enumerate(configs):
         if replay:
@@ -469,7 +499,7 @@ def run_all(chk, mj, hooks, proofs_ok, top, base, absdir, tags, outside):
             sub = e2e
         else:
             # the first configuration gets every name; the others the targeted names (traversal spellings, base-derived, long)
-            sub = e2e if ci == 0 else [c for c in e2e if len(c) < 400][:(9000 if ci < 6 else 3500) if not chk.thorough else 40000]
+            sub = e2e if ci == 0 else [c for c in e2e if len(c) < 400][:(9000 if ci < 6 else 3500 if ci < 19 else 2100) if not chk.thorough else (40000 if ci < 19 else 12000)]
         if not sub:
             continue
         env = dict(ENV, C17_BASE=cfg_base)
